@@ -164,6 +164,8 @@ fn run_exec(chain: &Chain, from_h: u64, amount: u64, prefix: &[u32], keep: bool)
 
 fn main() {
     let ctx = Ctx::from_args("C27");
+    // log lines of the code under test are evaluated (and discarded), as under RUST_LOG=trace
+    evaluate_log_arguments();
     let max_small: u64 = ctx.tier.pick(80, 600);
     let chain = Chain::generate(700);
     let froms = [1u64, 5];
@@ -257,6 +259,7 @@ fn main() {
                 "VERIF_SEED is unused: header contents come from ExtendedHeaderGenerator (random keys); the property depends on heights and adjacency only",
                 "the simulated client follows HeaderRequestExt::is_valid and the client contract (InvalidRequest / headers / HeaderNotFound); retries and peer selection inside the real client are not part of this system",
                 "'promptly' = within 10 answered header-ex requests; 'never panics' = within a horizon of 200 answered requests; overflow checks and debug assertions are ON in the harness build",
+                "a tracing subscriber that enables every callsite and discards the events is installed, so arithmetic inside debug!/trace! lines is executed as it is with logging enabled",
                 "header times come from Time::now() at generation; the run is far shorter than any verification window",
             ],
             required_classes: &["ok", "horizon"],
